@@ -400,6 +400,47 @@ pub fn family1_case(k: usize, orders: &[u8], attrs: &[u8], mut idx: u64) -> (Vec
     (slots, at_end)
 }
 
+/// family 6: every sequence of `len` slots over twelve slot kinds, followed by the short entry the right checksum
+/// belongs to — the reachable states of a long-name reader (run in progress at index i, no run, run just reset by a
+/// deleted slot / label / out-of-range index / foreign short entry) followed by every kind of next slot
+pub const N_KINDS: u64 = 12;
+pub fn family6_count(len: usize) -> u64 {
+    N_KINDS.pow(len as u32)
+}
+pub fn family6_case(len: usize, mut idx: u64) -> Vec<[u8; 32]> {
+    let right = sfn_checksum(&SFN_A);
+    let mut slots = Vec::with_capacity(len + 1);
+    for j in 0..len {
+        let k = idx % N_KINDS;
+        idx /= N_KINDS;
+        let mut text = [0u16; 13];
+        for (i, t) in text.iter_mut().enumerate() {
+            *t = 0x61 + ((j * 13 + i) % 26) as u16;
+        }
+        let lfn = |order: u8, sum: u8| mk_lfn_slot(order, sum, &text, 0x0F, 0, 0);
+        slots.push(match k {
+            0 => lfn(0x43, right),
+            1 => lfn(0x42, right),
+            2 => lfn(0x41, right),
+            3 => lfn(0x03, right),
+            4 => lfn(0x02, right),
+            5 => lfn(0x01, right),
+            6 => lfn(0x02, right.wrapping_add(0x35)),
+            7 => lfn(0x00, right),
+            8 => lfn(21, right),
+            9 => {
+                let mut d = mk_sfn_slot(&SFN_B, 0x20, 0, 0);
+                d[0] = 0xE5;
+                d
+            }
+            10 => mk_sfn_slot(b"A LABEL    ", 0x08, 0, 0),
+            _ => mk_sfn_slot(&SFN_B, 0x20, 0, 0),
+        });
+    }
+    slots.push(mk_sfn_slot(&SFN_A, 0x20, 0, 0));
+    slots
+}
+
 /// family 2/3: maximal runs and abandoned-run probes (small fixed list)
 pub fn special_cases() -> Vec<(String, Vec<[u8; 32]>)> {
     let mut v = Vec::new();
@@ -434,6 +475,32 @@ pub fn special_cases() -> Vec<(String, Vec<[u8; 32]>)> {
             s[p][0] = 0xE5;
             s.push(mk_sfn_slot(&SFN_A, 0x20, 0, 0));
             v.push((format!("run-of-{n}-slots-with-slot-{p}-deleted"), s));
+        }
+    }
+    // a proper run of n slots with one EXTRA slot inserted at position p (1..=n: after the p-th stored slot): a deleted
+    // short entry, a deleted long-name slot, a volume label, a long-name slot with index 0 resp. 21. The slots
+    // behind the insertion continue with the indices the interrupted run would have had (stale reader state)
+    for n in 2..=4usize {
+        let units: Vec<u16> = (0..n * 13 - 3).map(|i| 0x61 + (i % 26) as u16).collect();
+        let sum = sfn_checksum(&SFN_A);
+        let mut del_sfn = mk_sfn_slot(&SFN_B, 0x20, 0, 0);
+        del_sfn[0] = 0xE5;
+        let mut del_lfn = mk_lfn_slot(0x02, sum, &[0x41; 13], 0x0F, 0, 0);
+        del_lfn[0] = 0xE5;
+        let extras: Vec<(&str, [u8; 32])> = vec![
+            ("deleted-short-entry", del_sfn),
+            ("deleted-long-name-slot", del_lfn),
+            ("volume-label", mk_sfn_slot(b"A LABEL    ", 0x08, 0, 0)),
+            ("long-name-slot-index-0", mk_lfn_slot(0x00, sum, &[0x42; 13], 0x0F, 0, 0)),
+            ("long-name-slot-index-21", mk_lfn_slot(21, sum, &[0x43; 13], 0x0F, 0, 0)),
+        ];
+        for p in 1..=n {
+            for (en, e) in &extras {
+                let mut s = mk_lfn_run(&units, &SFN_A);
+                s.insert(p, *e);
+                s.push(mk_sfn_slot(&SFN_A, 0x20, 0, 0));
+                v.push((format!("run-of-{n}-slots-with-{en}-inserted-after-slot-{p}"), s));
+            }
         }
     }
     // abandoned longer run followed by a shorter valid run (stale buffer probe)
